@@ -53,6 +53,8 @@ op_enc_jwk(json_t *args)
     ok = jose_jwe_enc_jwk(NULL, jwe, rcp, hx_arg(args, "jwk"), cek);
     hx_tape_clear();
     res = json_pack("{s:b}", "ok", ok);
+    if (!hx_tmpl_refs_ok(rcp, jwe, "recipients"))
+        json_object_set_new(res, "refs_changed", json_true());
     if (ok) {
         json_object_set(res, "jwe", jwe);
         json_object_set(res, "cek", cek);
@@ -95,6 +97,8 @@ op_enc(json_t *args)
     ok = jose_jwe_enc(NULL, jwe, rcp, hx_arg(args, "jwk"), pt ? pt : (uint8_t *) "", ptl);
     hx_tape_clear();
     res = json_pack("{s:b}", "ok", ok);
+    if (!hx_tmpl_refs_ok(rcp, jwe, "recipients"))
+        json_object_set_new(res, "refs_changed", json_true());
     if (ok)
         json_object_set(res, "jwe", jwe);
     json_decref(jwe);
